@@ -18,7 +18,7 @@ import os
 
 from sim import prng
 from sim.engine import World
-from sim.node import SimClock, drop_scratch, make_scratch, run_plain
+from sim.node import LineTracer, SimClock, drop_scratch, make_scratch, run_plain
 from worlds import problems
 
 FILE_CHANNELS = ["json", "json_vu", "csv_dir", "csv_tuple", "xlsx"]
@@ -33,21 +33,35 @@ HOSTILE_ZONES = [
 ]
 LONG_FAMILY = [f"Evaporation and stripping plant - line {i}" for i in range(1, 9)]
 STEMS = ["case", "run A", "plant_2024", "x-y", "Projekt ä", "p (1)"]
+HOSTILE_STEMS = ["a[b]", "q?", "x:y", "'q'", "a very long project name over thirty-one chars", "st*r", "CASE"]
 
 
 # ------------------------------------------------------------------------------------------- producer
-def vu_problem(prob):
+BLANKABLE = ("t_target", "dt_cont", "price", "htc")  # utility cells that may be left blank (defaults apply)
+
+
+def materialize(prob):
+    """Logical problem -> schema-valid plain dict: a blank utility field becomes a value-with-unit object holding None."""
     p = copy.deepcopy(prob)
+    for u in p.get("utilities", []):
+        for k in BLANKABLE:
+            if u.get(k) is None:
+                u[k] = dict(value=None, units=UNITS[k])
+    return p
+
+
+def vu_problem(prob):
+    p = materialize(prob)
     for rec in p["streams"] + p.get("utilities", []):
         for k, u in UNITS.items():
-            if k in rec and rec[k] is not None:
+            if k in rec and rec[k] is not None and not isinstance(rec[k], dict):
                 rec[k] = dict(value=rec[k], units=u)
     return p
 
 
 def write_json(path, prob, vu=False):
     with open(path, "w", encoding="utf-8") as f:
-        json.dump(vu_problem(prob) if vu else prob, f)
+        json.dump(vu_problem(prob) if vu else materialize(prob), f)
 
 
 S_HEAD = (["Process Zone", "Stream", "TS", "TT", "ΔH", "ΔTcont", "HTC"], ["", "", "°C", "°C", "kW", "°C", "kW/m2/°C"])
@@ -63,33 +77,43 @@ def utility_rows(prob):
     return [[u["name"], u["type"], u["t_supply"], u["t_target"], u["dt_cont"], u["price"], u["htc"]] for u in prob.get("utilities", [])]
 
 
-def write_csv(dirpath, prob, keep=None, names=("streams.csv", "utilities.csv")):
+def has_blanks(prob):
+    return any(u.get(k) is None for u in prob.get("utilities", []) for k in BLANKABLE)
+
+
+def _cell(x, ints):
+    if isinstance(x, float) and ints and x.is_integer():
+        return int(x)
+    return x
+
+
+def write_csv(dirpath, prob, keep=None, names=("streams.csv", "utilities.csv"), units=True, ints=False):
     os.makedirs(dirpath, exist_ok=True)
     for fname, head, rows in ((names[0], S_HEAD, stream_rows(prob, keep)), (names[1], U_HEAD, utility_rows(prob))):
         with open(os.path.join(dirpath, fname), "w", newline="", encoding="utf-8") as f:
             w = csv.writer(f)
             w.writerow(head[0])
-            w.writerow(head[1])
+            w.writerow(head[1] if units else [""] * len(head[1]))
             for r in rows:
-                w.writerow([repr(x) if isinstance(x, float) else x for x in r])
+                w.writerow(["" if x is None else (repr(_cell(x, ints)) if isinstance(x, float) else x) for x in r])
     return os.path.join(dirpath, names[0]), os.path.join(dirpath, names[1])
 
 
-def write_xlsx(path, prob, keep=None):
+def write_xlsx(path, prob, keep=None, units=True, ints=False):
     import openpyxl
 
     wb = openpyxl.Workbook()
     ws = wb.active
     ws.title = "Stream Data"
     ws.append(S_HEAD[0])
-    ws.append([x or None for x in S_HEAD[1]])
+    ws.append([(x or None) if units else None for x in S_HEAD[1]])
     for r in stream_rows(prob, keep):
-        ws.append(r)
+        ws.append([_cell(x, ints) for x in r])
     wu = wb.create_sheet("Utility Data")
     wu.append(U_HEAD[0])
-    wu.append([x or None for x in U_HEAD[1]])
+    wu.append([(x or None) if units else None for x in U_HEAD[1]])
     for r in utility_rows(prob):
-        wu.append(r)
+        wu.append([_cell(x, ints) for x in r])
     if prob.get("options"):
         wo = wb.create_sheet("Options")
         wo.append(["### Options ###", "Value (blank = default value)"])
@@ -184,7 +208,7 @@ class C16(World):
         "disk: per-run scratch directory under /dev/shm; read faults by wrapping pathlib.Path.open, pandas.read_csv, pandas.read_excel, pandas.ExcelFile; write faults by wrapping pandas.ExcelWriter",
         "wall clock read by OpenPinch.utils.export (simulated clock object)",
     ]
-    fault_kinds = ["read_error", "torn_file", "lost_rows", "write_error", "missing_dir", "clock_jump"]
+    fault_kinds = ["read_error", "torn_file", "lost_rows", "write_error", "missing_dir", "clock_jump", "abort"]
     rule = (
         "each run = one generated history (3-20 operations) over 1-3 logical problems and 1-3 wrapper objects: load(wrapper, problem, channel) "
         "for channel in dict/model/value-with-unit dict/from_json/JSON/JSON with units/CSV directory/CSV pair/template workbook, target, "
@@ -248,6 +272,8 @@ class C16(World):
             for u in p["utilities"]:
                 u["active"] = True
                 u["heat_flow"] = None
+                if not hostile and pr.random() < 0.12:
+                    u[pr.choice(BLANKABLE)] = None  # a cell left blank: the documented default applies
             has_opts = (not hostile) and pr.random() < 0.2
             if has_opts:
                 p["options"] = {k2: v for k2, v in (problems.gen_options(pr) or {}).items() if k2 != "REFRIGERANTS"} or dict(DO_VERTICAL_GCC=True)
@@ -267,18 +293,24 @@ class C16(World):
                 st = dict(op="load", w=args.randrange(nw), p=p, ch=ch, stem=args.choice(STEMS))
                 if swarm["same_path"] and args.random() < 0.8:
                     st["same_path"] = True
+                st["style"] = dict(units=args.random() < 0.8, ints=args.random() < 0.4)
+                if args.random() < 0.25:
+                    st["stem"] = args.choice(HOSTILE_STEMS)  # used only when the problem itself is hostile (JSON channel)
                 if fault:
                     st["fault"] = args.choice(["read_error", "torn_file", "lost_rows"])
                     st["frac"] = round(args.uniform(0.05, 0.95), 3)
                     st["keep"] = args.randrange(1, 6)
             elif op == "target":
                 st = dict(op="target", w=args.randrange(nw), twice=args.random() < 0.4)
+                if fault and args.random() < 0.5:
+                    st["abort_at"] = args.choice([20, 200, 2000, 12000, 30000])
             elif op == "svc":
                 st = dict(op="svc", p=args.randrange(len(probs)), form=args.choice(["dict", "model", "vu_dict"]), name=args.choice(STEMS))
             elif op == "export":
                 st = dict(op="export", w=args.randrange(nw), dir=args.choice(["out", "out", "out2"]))
                 if fault:
-                    st["fault"] = args.choice(["write_error", "missing_dir"])
+                    st["fault"] = args.choice(["write_error", "missing_dir", "abort"])
+                    st["abort_at"] = args.choice([20, 200, 2000, 12000, 30000, 60000])
             elif op == "ctor_run":
                 st = dict(op="ctor_run", p=args.randrange(len(probs)), ch=args.choice(["json", "json_vu", "csv_dir", "xlsx"]), stem=args.choice(STEMS), export=args.random() < 0.5)
             elif op == "alloc":
@@ -381,7 +413,7 @@ class C16(World):
         ref_cache = {}
 
         def variant(p, keep=None):
-            d = copy.deepcopy(probs[p]["data"])
+            d = materialize(probs[p]["data"])
             if keep is not None:
                 d["streams"] = d["streams"][:keep]
             return d
@@ -449,6 +481,11 @@ class C16(World):
                     os.makedirs(d, exist_ok=True)
                     if ch in ("csv_dir", "csv_tuple", "xlsx") and prob["hostile"]:
                         ch = "json"  # hostile names only through dict/JSON/model channels
+                    if stem in HOSTILE_STEMS and not (prob["hostile"] and ch in ("json", "json_vu")):
+                        stem = "case"
+                    style = dict(st.get("style") or dict(units=True, ints=False))
+                    if has_blanks(prob["data"]):
+                        style["units"] = True  # a blank cell only means "default" in a unit-bearing column
                     no_options = ch in ("csv_dir", "csv_tuple") and prob["options"]
                     if flt == "lost_rows" and ch in ("csv_dir", "csv_tuple", "xlsx") and len(prob["data"]["streams"]) > 1:
                         keep = 1 + (st["keep"] - 1) % (len(prob["data"]["streams"]) - 1)
@@ -461,12 +498,16 @@ class C16(World):
                         exact = True
                     elif ch == "csv_dir":
                         src = os.path.join(d, stem)
-                        write_csv(src, data, keep)
+                        write_csv(src, data, keep, **style)
                     elif ch == "csv_tuple":
-                        src = write_csv(os.path.join(d, stem), data, keep, names=("s_" + stem + ".csv", "u_" + stem + ".csv"))
+                        src = write_csv(os.path.join(d, stem), data, keep, names=("s_" + stem + ".csv", "u_" + stem + ".csv"), **style)
                     elif ch == "xlsx":
                         src = os.path.join(d, stem + ".xlsx")
-                        write_xlsx(src, data, keep)
+                        write_xlsx(src, data, keep, units=True, ints=style["ints"])  # the workbook template always carries its units row
+                    if not style["units"] and ch in ("csv_dir", "csv_tuple"):
+                        probe("file_without_units_row")
+                    if has_blanks(data) and ch in ("csv_dir", "csv_tuple", "xlsx"):
+                        probe("file_with_blank_cells")
                     if flt == "torn_file" and ch in ("json", "json_vu", "xlsx"):
                         truncate(src, st["frac"])
                         fault_fired("torn_file")
@@ -485,7 +526,7 @@ class C16(World):
                     def do_load():
                         if ch == "dict":
                             # the documented in-memory route for dictionaries
-                            nw = PinchProblem.from_json(copy.deepcopy(data))
+                            nw = PinchProblem.from_json(materialize(data))
                             wrappers[w_i] = nw
                             return nw
                         if ch == "from_json":
@@ -493,7 +534,7 @@ class C16(World):
                             wrappers[w_i] = nw
                             return nw
                         if ch == "model":
-                            return w.load(TargetInput.model_validate(copy.deepcopy(data)))
+                            return w.load(TargetInput.model_validate(materialize(data)))
                         if ch == "vu_dict":
                             return w.load(TargetInput.model_validate(vu_problem(data)))
                         return w.load(src)
@@ -525,7 +566,20 @@ class C16(World):
                 elif op == "target":
                     w_i = st["w"] % n_w
                     w, m = wrappers[w_i], model[w_i]
-                    kind, val = run_plain(w.target)
+                    if st.get("abort_at") and m["loaded"] is not None and not m["cached"]:
+                        tr = LineTracer(st["abort_at"])
+                        kind, val = tr.run(w.target)
+                        if tr.fired:
+                            # the analysis was interrupted: nothing may have been cached, and the wrapper must still work
+                            fault_fired("abort")
+                            fault_in_force = "abort"
+                            tick("abort_leaves_no_result")
+                            if w.results is not None:
+                                V("abort_leaves_no_result", f"{m['ch']}|target", step, "an interrupted target() left a cached result behind")
+                            log.append([st.get("client", 0), op, "aborted"])
+                            continue
+                    else:
+                        kind, val = run_plain(w.target)
                     if m["loaded"] is None and not m["failed_load"]:
                         tick("no_input")
                         if not (kind == "raise" and isinstance(val, RuntimeError)):
@@ -561,9 +615,9 @@ class C16(World):
                     data = probs[p]["data"]
                     form = st["form"]
                     if form == "dict":
-                        arg = copy.deepcopy(data)
+                        arg = materialize(data)
                     elif form == "model":
-                        arg = TargetInput.model_validate(copy.deepcopy(data))
+                        arg = TargetInput.model_validate(materialize(data))
                     else:
                         arg = vu_problem(data)
                     kind, val = run_plain(lambda: pinch_analysis_service(arg, project_name=st["name"]))
@@ -587,7 +641,25 @@ class C16(World):
                         armed["write"] = True
                     before = set(os.listdir(out_dir)) if os.path.isdir(out_dir) else set()
                     was_cached, last = m["cached"], m["last"]
-                    kind, val = run_plain(lambda: w.export_to_Excel(out_dir))
+                    if flt == "abort":
+                        tr = LineTracer(st["abort_at"])
+                        kind, val = tr.run(lambda: w.export_to_Excel(out_dir))
+                        if tr.fired:
+                            fault_fired("abort")
+                            fault_in_force = "abort"
+                            if was_cached:
+                                tick("cache_identity")
+                                if w.results is not last:
+                                    V("cache_identity", f"{m['ch']}|after_aborted_export", step, "an interrupted export replaced or dropped the cached result")
+                            elif w.results is not None and m["loaded"] is not None:
+                                # the analysis part had finished before the interruption: the result is cached and must be right
+                                judge_result(step, w_i, w.results, op)
+                                m["cached"], m["last"] = True, w.results
+                            log.append([st.get("client", 0), op, "aborted"])
+                            continue
+                        flt = None
+                    else:
+                        kind, val = run_plain(lambda: w.export_to_Excel(out_dir))
                     if armed["fired"]:
                         fault_fired("write_error")
                     if flt == "missing_dir":
